@@ -1,10 +1,46 @@
 (* Props/C18.v — the theorems that decide property C18.  Statements only. *)
-From CKB Require Import Indexer.Indexer Indexer.Query Indexer.QueryProofs.
+From CKB Require Import Indexer.Indexer Indexer.Query Indexer.Canon Indexer.SameAnswers
+  Indexer.ScriptMatch Indexer.Paging Indexer.QueryProofs Indexer.IndexerExamples.
+From Coq Require Import Permutation Sorted.
 
-(* Known class: in prefix mode the searched bytes are compared with the KEY
-   (script ++ block number ++ tx index ++ output index), so a search whose
-   bytes continue past a shorter script into that script's block-number bytes
-   returns that script's cells.  Witness on a valid one-block chain. *)
+(* Every answer of the query layer — tip, live cells / transactions by script,
+   get_cells, get_cells_capacity, get_transactions (ungrouped and grouped), for
+   every search mode, filter, order, limit and cursor — is a function of the
+   live rows only: two stores with the same tip, the same rows in the four
+   script-indexed tables (as sets) and the same OutPoint / TxLockScript /
+   TxTypeScript point reads answer every query identically. *)
+Theorem c18_same_answers : forall st st',
+  live_equiv st st' -> rows_inj st -> forall q, run_query st q = run_query st' q.
+Proof. exact same_answers. Qed.
+
+(* answers are listed in key order *)
+Theorem c18_scan_sorted : forall lock p st,
+  StronglySorted (fun x y => lex_leb (crow_key x) (crow_key y) = true) (scan_cells lock p st) /\
+  StronglySorted (fun x y => lex_leb (trow_key x) (trow_key y) = true) (scan_txs lock p st).
+Proof. intros lock p st. exact (conj (sort_by_sorted crow_key _) (sort_by_sorted trow_key _)). Qed.
+
+(* exact mode selects exactly the rows of the searched script *)
+Theorem c18_exact_mode_cell_rows : forall p r,
+  (is_prefix p (crow_key r) = true /\ length (crow_key r) = length p + 16) <-> cr_s r = p.
+Proof. exact exact_mode_cell_rows. Qed.
+Theorem c18_exact_mode_tx_rows : forall p r,
+  (is_prefix p (trow_key r) = true /\ length (trow_key r) = length p + 17) <-> tr_s r = p.
+Proof. exact exact_mode_tx_rows. Qed.
+
+(* prefix mode selects the rows whose script starts with the searched bytes —
+   for every row whose script is not shorter than the searched bytes *)
+Theorem c18_prefix_mode_cell_rows : forall p r,
+  length p <= length (cr_s r) -> is_prefix p (crow_key r) = is_prefix p (cr_s r).
+Proof. exact prefix_mode_cell_rows. Qed.
+Theorem c18_prefix_mode_tx_rows : forall p r,
+  length p <= length (tr_s r) -> is_prefix p (trow_key r) = is_prefix p (tr_s r).
+Proof. exact prefix_mode_tx_rows. Qed.
+
+(* Known class (rows with a SHORTER script): in prefix mode the searched bytes
+   are compared with the KEY (script ++ block number ++ tx index ++ output
+   index), so a search whose bytes continue past a shorter script into that
+   script's block-number bytes returns that script's cells.  Witness on a valid
+   one-block chain. *)
 Theorem c18_prefix_search_refuted :
   exists (ops : list iop) (s : istate) (p : script) (op : outpoint) (c : lcell),
     ops_ok 10 1000 ix_empty ops = true /\ irun 10 1000 ix_empty ops = Some s /\
@@ -13,4 +49,46 @@ Theorem c18_prefix_search_refuted :
     is_prefix p (o_lock (lc_out c)) = false.
 Proof. exact prefix_search_refuted. Qed.
 
+(* limits: a page holds the first [limit] elements of the filtered row sequence *)
+Theorem c18_transactions_page : forall st q,
+  fst (get_transactions st q) =
+  map (fun r => (tr_tx r, tr_bn r, tr_txi r, tr_ioi r, tr_out r))
+      (firstn (sq_limit q)
+         (filter (txs_keep st q)
+            (iter_rows trow_key (tx_rows (sq_lock q) st) (sq_script q) (sq_desc q) (sq_after q)))).
+Proof. exact get_transactions_objects. Qed.
+Theorem c18_cells_page : forall st q cap rows full,
+  collect_cells st q cap (S (length rows)) rows = Some full ->
+  forall lim, collect_cells st q cap lim rows = Some (firstn lim full).
+Proof. exact collect_cells_firstn. Qed.
+
+(* the defect repaired by fix b7a7b39: get_cells_capacity counted cells whose
+   script length equals the upper bound of script_len_range; get_cells did not *)
+Theorem c18_capacity_old_refuted :
+  get_cells (ix_store w_state) w_capq = Some ([], []) /\
+  get_cells_capacity_old (ix_store w_state) w_capq = Some (Some (100, 0, 1))%N.
+Proof. exact capacity_old_refuted. Qed.
+
+(* non-vacuity: a two-branch history (in-block create-and-spend, scripts sharing
+   a prefix, a type script, prune firing, two rollbacks) meets the hypotheses *)
+Theorem c18_example_ops_ok : ops_ok 3 2 ix_empty example_ops = true.
+Proof. exact example_ops_ok. Qed.
+Theorem c18_example_nontrivial :
+  exists s, irun 3 2 ix_empty example_ops = Some s
+    /\ live_cells_by_script (ix_store s) true sA = [(3, 1); (5, 0); (8, 0); (22, 0); (23, 0); (24, 0)]%N
+    /\ live_cells_by_script (ix_store s) false tT = [(3, 1)]%N
+    /\ ix_floor s = 3%N.
+Proof. exact example_nontrivial. Qed.
+
+Redirect "out/C18.c18_same_answers" Print Assumptions c18_same_answers.
+Redirect "out/C18.c18_scan_sorted" Print Assumptions c18_scan_sorted.
+Redirect "out/C18.c18_exact_mode_cell_rows" Print Assumptions c18_exact_mode_cell_rows.
+Redirect "out/C18.c18_exact_mode_tx_rows" Print Assumptions c18_exact_mode_tx_rows.
+Redirect "out/C18.c18_prefix_mode_cell_rows" Print Assumptions c18_prefix_mode_cell_rows.
+Redirect "out/C18.c18_prefix_mode_tx_rows" Print Assumptions c18_prefix_mode_tx_rows.
 Redirect "out/C18.c18_prefix_search_refuted" Print Assumptions c18_prefix_search_refuted.
+Redirect "out/C18.c18_transactions_page" Print Assumptions c18_transactions_page.
+Redirect "out/C18.c18_cells_page" Print Assumptions c18_cells_page.
+Redirect "out/C18.c18_capacity_old_refuted" Print Assumptions c18_capacity_old_refuted.
+Redirect "out/C18.c18_example_ops_ok" Print Assumptions c18_example_ops_ok.
+Redirect "out/C18.c18_example_nontrivial" Print Assumptions c18_example_nontrivial.
